@@ -69,6 +69,12 @@ def val(rep, cfg, slot):
     return 0.05 * rep + 1e-3 * cfg + 1e-6 * slot + 0.2
 
 
+def valn(rep, cfg, slot):
+    """as val, but without any linear structure in the slot (sums over permuted or shifted index sets must not coincide)"""
+    h = np.sin(12.9898 * slot + 78.233 * cfg + 3.7 * rep) * 43758.5453
+    return val(rep, cfg, 0) + 1e-2 * float(h - np.floor(h))
+
+
 def rep_indices(rng):
     n = int(rng.integers(1, 4))
     pool = [1, 2, 3, 7, 10, 12]
@@ -377,7 +383,168 @@ def t0_case(rng, i, tmp, ctx):
              'dy': [rat(float(o.dvalue)) for o in ys], 'fr': fr, 'res': res}]
 
 
-MAKERS = [rwms_case, qtop_case, gfms_case, ms5_case, sfcf_case, hd5_case, t0_case]
+LORENTZ_PAIRS = None
+
+
+def _lorentz_pairs():
+    """the 32 (gammaA, gammaB) labels of a FourQuarkFullyConnected file (10 vertex families), in a shuffled but fixed order"""
+    global LORENTZ_PAIRS
+    if LORENTZ_PAIRS is None:
+        ax = ['X', 'Y', 'Z', 'T']
+        pairs = []
+        for a in (False, True):
+            for b in (False, True):
+                pairs += [('Gamma' + i + 'Gamma5' * a, 'Gamma' + i + 'Gamma5' * b) for i in ax]
+        pairs += [(u, v) for u in ('Identity', 'Gamma5') for v in ('Identity', 'Gamma5')]
+        sig = ['Sigma' + ax[i] + ax[j] for i in range(4) for j in range(i + 1, 4)]
+        pairs += [(s_, s_) for s_ in sig]
+        pairs += [(sig[k], sig[5 - k]) for k in range(6)]
+        LORENTZ_PAIRS = pairs
+    return LORENTZ_PAIRS
+
+
+BILINEAR_GAMMAS = ['Identity', 'Gamma5', 'GammaX', 'GammaY', 'GammaZ', 'GammaT', 'GammaXGamma5', 'GammaYGamma5', 'GammaZGamma5', 'GammaTGamma5',
+                   'SigmaXY', 'SigmaXZ', 'SigmaXT', 'SigmaYZ', 'SigmaYT', 'SigmaZT']
+
+
+def _hd_cfgs(rng):
+    n = int(rng.integers(5, 10))
+    step = int(rng.choice([1, 2, 5]))
+    first = int(rng.integers(1, 30))
+    return [first + j * step for j in range(n)]
+
+
+def _hd_selection(rng, cfgs):
+    n = len(cfgs)
+    if rng.random() < 0.5:
+        return {}, {'k': 'all'}
+    keep = sorted(rng.choice(n, size=max(5, n - 2) if n > 5 else n, replace=False).tolist())
+    idl = [cfgs[j] for j in keep]
+    arg = idl if rng.random() < 0.7 or len(set(np.diff(idl))) > 1 else range(idl[0], idl[-1] + 1, idl[1] - idl[0])
+    return {'idl': arg}, {'k': 'list', 'idl': [list(arg)]}
+
+
+def _cobs_list(m):
+    out = []
+    for idx in np.ndindex(m.shape):
+        out += [m[idx].real, m[idx].imag]
+    return out
+
+
+def _mat(shape, cfg, base):
+    n = int(np.prod(shape))
+    return np.array([complex(valn(1, cfg, base + 2 * e), valn(1, cfg, base + 2 * e + 1)) for e in range(n)]).reshape(shape)
+
+
+def _prec_mat(a, b, m):
+    return {'a': a, 'b': b, 'm': [[rat(z.real), rat(z.imag)] for z in m.reshape(-1)]}
+
+
+def hdmat_case(rng, i, tmp, ctx):
+    """ExternalLeg / Bilinear / FourQuarkFullyConnected: matrices of complex observables, one file per configuration"""
+    kind = ['leg', 'bilinear', 'fourquark'][i % 3]
+    cfgs = _hd_cfgs(rng)
+    d = os.path.join(tmp, 'hm%d' % i)
+    kw, sel = _hd_selection(rng, cfgs)
+    shuffle = bool(rng.random() < 0.7)
+    out = []
+    if kind == 'leg':
+        shape = (2, 2, 1, 2) if rng.random() < 0.7 else (4, 4, 3, 3)
+        stored = {cfg: [('leg', '', _mat(shape, cfg, 0))] for cfg in cfgs}
+        w_hd.write_externalleg_hd5(d, 'npr', {cfg: stored[cfg][0][2] for cfg in cfgs})
+        with shuffled_listing(rng, shuffle):
+            r = quiet(lambda: pe.input.hadrons.read_ExternalLeg_hd5(d, 'npr', 'ensH', **kw))
+        wants = [({'k': 'leg'}, r if isinstance(r, Exception) else _cobs_list(r))]
+    elif kind == 'bilinear':
+        shape = (2, 1, 1, 2)
+        order = list(BILINEAR_GAMMAS)
+        rng.shuffle(order)
+        stored = {cfg: [(g, '', _mat(shape, cfg, 20 * k)) for k, g in enumerate(order)] for cfg in cfgs}
+        w_hd.write_bilinear_hd5(d, 'npr', {cfg: [m for _, _, m in stored[cfg]] for cfg in cfgs}, order)
+        with shuffled_listing(rng, shuffle):
+            r = quiet(lambda: pe.input.hadrons.read_Bilinear_hd5(d, 'npr', 'ensH', **kw))
+        pick = [str(g) for g in rng.choice(order, size=3, replace=False)]
+        wants = [({'k': 'bilinear', 'gamma': g}, r if isinstance(r, Exception) else (_cobs_list(r[g]) if g in r else KeyError(g))) for g in pick]
+    else:
+        shape = (1, 2, 1, 1, 2, 1, 1, 1)
+        order = list(_lorentz_pairs())
+        rng.shuffle(order)
+        stored = {cfg: [(a, b, _mat(shape, cfg, 10 * k)) for k, (a, b) in enumerate(order)] for cfg in cfgs}
+        w_hd.write_fourquark_hd5(d, 'npr', {cfg: [m for _, _, m in stored[cfg]] for cfg in cfgs}, order)
+        verts = [str(v) for v in rng.choice(['VV', 'VA', 'AV', 'AA', 'SS', 'SP', 'PS', 'PP', 'TT', 'TTtilde'], size=3, replace=False)]
+        with shuffled_listing(rng, shuffle):
+            r = quiet(lambda: pe.input.hadrons.read_Fourquark_hd5(d, 'npr', 'ensH', vertices=verts, **kw))
+        wants = [({'k': 'fourquark', 'vertex': v}, r if isinstance(r, Exception) else (_cobs_list(r[v]) if v in r else KeyError(v))) for v in verts]
+    reps = [{'stem': 'npr', 'recs': [{'cfg': cfg, 'p': [_prec_mat(a, b, m) for a, b, m in stored[cfg]]} for cfg in cfgs]}]
+    for want, objs in wants:
+        cid = 'hd5mat-%04d-%s-n%d-%s%s' % (i, '-'.join(str(v) for v in want.values()), len(cfgs), sel['k'], '-shuf' if shuffle else '')
+        ctx.nontrivial.add(('hd5mat',) + tuple(want.values()) + (sel['k'], shuffle))
+        out.append({'id': cid, 'ev': 'read', 'fmt': 'hd5mat', 'reps': reps, 'par': {'ens_id': 'ensH', 'want': want}, 'sel': sel, 'res': res_series(objs)})
+    return out
+
+
+def hddist_case(rng, i, tmp, ctx):
+    """DistillationContraction: one directory per configuration, one file per meson field combination, all source times averaged"""
+    cfgs = _hd_cfgs(rng)
+    nt = int(rng.integers(3, 6))
+    d = os.path.join(tmp, 'hx%d' % i)
+    diagrams = ['direct', 'triangle'] if rng.random() < 0.5 else ['direct']
+    stems = {'mfA': ['x/pi_n1_a_b.h5', 'x/pi_n2_c_d.h5', 'rho_n0_e_f.h5', 'rho_n3_g_h.h5'],
+             'mfB': ['x/pi_n1_a_b.h5', 'x/pi_n2_c_d.h5', 'rho_n0_Identity_f.h5', 'rho_n3_g_h.h5']}
+    if rng.random() < 0.5:
+        del stems['mfB']
+    data = {cfg: {st: {dg: np.array([[complex(valn(1 + k, cfg, 100 * q + 2 * (x0 * nt + t)), valn(1 + k, cfg, 100 * q + 2 * (x0 * nt + t) + 1)) for t in range(nt)]
+                                     for x0 in range(nt)]) for q, dg in enumerate(diagrams)} for k, st in enumerate(stems)} for cfg in cfgs}
+    w_hd.write_distillation_hd5(d, data, stems, nt, diagrams=diagrams)
+    kw, sel = _hd_selection(rng, cfgs)
+    shuffle = bool(rng.random() < 0.7)
+    with shuffled_listing(rng, shuffle):
+        r = quiet(lambda: pe.input.hadrons.read_DistillationContraction_hd5(d, 'ensH', diagrams=diagrams, **kw))
+    out = []
+    for k, st in enumerate(stems):
+        pieces = [f.split('/')[-1].replace('.h5', '').split('_') for f in stems[st]]
+        ident = str(tuple((q[0], q[1][1:], q[2], q[3]) for q in pieces))      # the label the reader derives from the meson field file names
+        for dg in diagrams:
+            im = dg == 'triangle' and 'Identity' not in ident
+            if isinstance(r, Exception):
+                objs = r
+            elif ident not in r or dg not in r[ident]:
+                objs = KeyError(ident)
+            else:
+                objs = [r[ident][dg].content[t][0] for t in range(r[ident][dg].T)]
+            reps = [{'stem': 'data', 'recs': [{'cfg': cfg, 'p': [[[rat(z.real), rat(z.imag)] for z in row] for row in data[cfg][st][dg]]} for cfg in cfgs]}]
+            cid = 'hd5dist-%04d-%s-%s-nt%d-n%d-%s%s' % (i, st, dg, nt, len(cfgs), sel['k'], '-shuf' if shuffle else '')
+            ctx.nontrivial.add(('hd5dist', st, dg, nt, sel['k'], shuffle))
+            out.append({'id': cid, 'ev': 'read', 'fmt': 'hd5dist', 'reps': reps, 'par': {'ens_id': 'ensH', 'im': bool(im)}, 'sel': sel, 'res': res_series(objs)})
+    return out
+
+
+def hdflow_case(rng, i, tmp, ctx):
+    """extract_t0_hd5: the flow scale from FlowObservables files = fit_t0 of (flow time, t^2 E - 0.3) built from the stored numbers"""
+    cfgs = _hd_cfgs(rng)
+    K = int(rng.integers(8, 14))
+    fr = int(rng.integers(1, 4))
+    ft = [round(0.1 * (k + 1), 4) for k in range(K)]
+    troot = {obs: float(rng.uniform(ft[fr], ft[K - 2])) for obs in ('Plaquette energy density', 'Clover energy density')}
+    slope = float(rng.uniform(0.5, 2.0))
+    data = {cfg: {obs: [0.3 + slope * (t - troot[obs]) * (1 + 0.05 * float(rng.normal())) + 0.01 * float(rng.normal()) for t in ft] for obs in troot} for cfg in cfgs}
+    d = os.path.join(tmp, 'hf%d' % i)
+    w_hd.write_flowobs_hd5(d, 'flow', data, ft)
+    obs = str(rng.choice(list(troot)))
+    kw, sel = _hd_selection(rng, cfgs)
+    shuffle = bool(rng.random() < 0.7)
+    with shuffled_listing(rng, shuffle):
+        r = quiet(lambda: pe.input.hadrons.extract_t0_hd5(d, 'flow', 'ensH', obs=obs, fit_range=fr, **kw))
+    use = list(kw['idl']) if kw else cfgs
+    ys = [pe.Obs([np.array([data[cfg][obs][k] for cfg in use])], ['ensH'], idl=[use]) - 0.3 for k in range(K)]
+    [o.gamma_method() for o in ys]
+    res = {'k': 'exc', 't': type(r).__name__} if isinstance(r, Exception) else {'k': 'ok', 'v': ratx(float(r.value))}
+    ctx.nontrivial.add(('hd5flow', K, fr, obs, sel['k']))
+    return [{'id': 'hd5flow-%04d-K%d-fr%d-%s-%s' % (i, K, fr, obs.split()[0], sel['k']), 'ev': 'fit_t0', 'fmt': 't0', 'x': [rat(x) for x in ft],
+             'y': [rat(float(o.value)) for o in ys], 'dy': [rat(float(o.dvalue)) for o in ys], 'fr': fr, 'res': res}]
+
+
+MAKERS = [rwms_case, qtop_case, gfms_case, ms5_case, sfcf_case, hd5_case, t0_case, hdmat_case, hddist_case, hdflow_case]
 
 
 def run(ctx):
